@@ -198,6 +198,15 @@ pub fn c07_fft<T: Elem>(st: &mut Stats, prop: &str, case_base: &str, fft: &Arc<d
             if (k + n) % 2 == 0 {
                 shape.place = Place::Head;
             }
+            // scratch length of the multi-chunk call rotates over: exactly advertised, twice advertised (+1), one short of k times
+            // advertised, as long as the data (what callers who size scratch "like the buffer" pass)
+            let adv = shape.scratch_len;
+            shape.scratch_len = match (k + n + entry as usize) % 4 {
+                0 => adv,
+                1 => 2 * adv + 1,
+                2 => (adv * k).saturating_sub(1).max(adv),
+                _ => (k * n).max(adv),
+            };
             let full = invoke(&**fft, &data, &shape);
             count_call(st, entry, k);
             if let Err(msg) = &full.outcome {
@@ -685,15 +694,15 @@ pub fn run(args: &Args) {
     let light = args.flag("light");
     let (dense_max, struct_max, struct_count) = match (prop.as_str(), t) {
         ("C03", false) => (1024, 1 << 17, 60),
-        ("C03", true) => (4096, 1 << 21, 300),
+        ("C03", true) => (4096, 1 << 19, 300),
         ("C07", false) => (512, 1 << 15, 60),
-        ("C07", true) => (2048, 1 << 18, 300),
+        ("C07", true) => (2048, 1 << 17, 300),
         ("C08", false) => (1024, 1 << 16, 80),
-        ("C08", true) => (4096, 1 << 20, 400),
+        ("C08", true) => (4096, 1 << 18, 300),
         ("C09", false) => (512, 1 << 14, 60),
-        ("C09", true) => (2048, 1 << 17, 300),
+        ("C09", true) => (2048, 1 << 16, 300),
         ("C15", false) => (1024, 1 << 16, 80),
-        ("C15", true) => (4096, 1 << 20, 400),
+        ("C15", true) => (4096, 1 << 18, 300),
         _ => (256, 4096, 20),
     };
     let mut lengths = lengths_from_args(args, dense_max, struct_max, struct_count, 0x5a);
